@@ -18,8 +18,9 @@ import CalVerif.Prim.Res
       the few decisions the Rust code takes on *decoded* text (`is_empty`, `rsplit('#')`, `strip_prefix("*\\C")`)
       are taken on the bytes, which is the same for every code page in which `#`, `*`, `\`, `C` are the single
       bytes 0x23/0x2A/0x5C/0x43 and never part of a multi-byte sequence (all Windows/ISO single-byte pages,
-      932, 936, 949, 950, 65001; not UTF-16 and ISO-2022); `decode_all` strips a leading BOM of the code page's own
-      encoding only (after the `decode_all` fix), so for 65001 a name that is exactly EF BB BF is outside the model.
+      932, 936, 949, 950, 65001; not UTF-16 and ISO-2022, except that projects without libids — module records only —
+      are independent of it). `decode_all` does no byte-order-mark handling (after /repo f350ba0, f4865f5), so a byte
+      string is empty exactly when its decoded text is, and names are compared as the directory stores them.
     After the robustness fixes (ledger D34: /repo 3510bc7, a92e839) none of the modelled functions contains a panic
     site: every malformed input is an `err` (`decompress_no_panic`, `dirWalk_no_panic`). -/
 
